@@ -107,6 +107,8 @@ fn main() {
         return;
     }
     p!("CACHE_LINE_LENGTH", aeron_rs::utils::misc::CACHE_LINE_LENGTH);
+    p!("I32_SIZE", aeron_rs::utils::types::I32_SIZE);
+    p!("I64_SIZE", aeron_rs::utils::types::I64_SIZE);
     dump_cnc();
     // log buffer descriptor
     p!("TERM_MIN_LENGTH", lbd::TERM_MIN_LENGTH);
